@@ -60,6 +60,7 @@ TEof   == Is("Eof") /\ Stutter
 TStall == Is("Stall") /\ Stutter
 THang  == Is("Hang") /\ Stutter     \* judged by the check script: never a behaviour question
 TDied  == Is("Died") /\ (IF broken THEN Stutter ELSE Break("Died"))   \* the library crashed while producing the response
+TOver  == Is("Overrun") /\ (IF broken THEN Stutter ELSE Break("Overrun"))   \* unbounded output
 
 (* the end of the response as the peer's decoder saw it *)
 FramingOK ==
@@ -87,6 +88,6 @@ TCache ==
        IN Judge("Cache", Ev.present /\ Ev.gzend /\ finalized /\ StoreOK(c), Store(c))
 
 TraceInit == Init /\ l = 1 /\ cfg = [proto |-> "none", gz |-> FALSE, mode |-> "none", cache |-> FALSE] /\ broken = FALSE
-TraceNext == TReset \/ TApp \/ TSock \/ THdr \/ TWire \/ TEof \/ TStall \/ THang \/ TDied \/ TFrame \/ TCache
+TraceNext == TReset \/ TApp \/ TSock \/ THdr \/ TWire \/ TEof \/ TStall \/ THang \/ TDied \/ TOver \/ TFrame \/ TCache
 TraceSpec == TraceInit /\ [][TraceNext]_tvars
 =============================================================================
